@@ -70,6 +70,11 @@ def affine(node: ast.AST, env: dict[str, Affine] | None = None) -> Affine:
                 return aff_scale(r, cl)
             if cr is not None:
                 return aff_scale(l, cr)
+        if isinstance(node.op, ast.Pow):
+            l, r = affine(node.left, env), affine(node.right, env)
+            cl, cr = aff_const(l), aff_const(r)
+            if cl is not None and cr is not None and cr.denominator == 1 and 0 <= cr <= 64:
+                return _clean({1: cl ** int(cr)})
         if isinstance(node.op, ast.Div):
             l, r = affine(node.left, env), affine(node.right, env)
             cr = aff_const(r)
